@@ -19,6 +19,12 @@ import time
 import traceback
 
 VERIF_DIR = os.path.dirname(os.path.dirname(os.path.abspath(__file__)))
+
+
+def _jd(o):
+    from . import kernel
+    return kernel._default(o)
+
 PY = "/venv/bin/python"
 
 QUICK_RUNS = {"C13": 40000, "C01": 20000, "C04": 20000, "C17": 20000, "C06": 15000, "C07": 15000, "C10": 12000}
@@ -84,13 +90,13 @@ def dump_replay(body):
     lines = []
     for k, v in body.items():
         if k == "steps":
-            inner = ",\n  ".join(json.dumps(s, default=list) for s in v)
+            inner = ",\n  ".join(json.dumps(s, default=_jd) for s in v)
             lines.append(' "steps": [\n  %s\n ]' % inner)
         elif k == "prelude":
-            inner = ",\n  ".join(json.dumps(s, default=list) for s in v)
+            inner = ",\n  ".join(json.dumps(s, default=_jd) for s in v)
             lines.append(' "prelude": [\n  %s\n ]' % inner if v else ' "prelude": []')
         else:
-            lines.append(" %s: %s" % (json.dumps(k), json.dumps(v, default=list)))
+            lines.append(" %s: %s" % (json.dumps(k), json.dumps(v, default=_jd)))
     return "{\n" + ",\n".join(lines) + "\n}\n"
 
 
@@ -109,7 +115,7 @@ def cmd_replay(path, quiet=False):
     out = {"digest": res["digest"], "expected_digest": body.get("log_digest"), "reproduced": bool(same),
            "violations": res["violations"], "outcomes": res["outcomes"]}
     if not quiet:
-        print(json.dumps(out, indent=1, default=list))
+        print(json.dumps(out, indent=1, default=_jd))
     if same:
         print("VIOLATION property=%s replay=%s" % (body["property"], path))
         return 1
@@ -336,7 +342,7 @@ def write_evidence(prop, tier, batch_seed, world, cls, agg, corpus_n, known_hit,
         d = os.path.join(os.environ["VERIF_REPO"], "_verif_evidence")
     os.makedirs(d, exist_ok=True)
     with open(os.path.join(d, prop + ".json"), "w") as f:
-        json.dump(ev, f, indent=1, default=list)
+        json.dump(ev, f, indent=1, default=_jd)
         f.write("\n")
 
 
@@ -360,7 +366,7 @@ def cmd_one(world, focus, index, batch_seed):
     for st, o in zip(res["steps"], res["outcomes"]):
         print(o, json.dumps(st)[:300])
     print("digest", res["digest"])
-    print("violations", json.dumps(res["violations"], indent=1, default=list))
+    print("violations", json.dumps(res["violations"], indent=1, default=_jd))
     return 0
 
 
